@@ -11,6 +11,8 @@ from ..detloop import DetLoop
 
 PID = 'C17'
 TFAULT = 'underlying method fault'
+KNOWN = set()
+KF_IQ = 'disconnect-helper-lacks-ignore-queue'
 EXHAUSTIVE = True
 EXHAUSTIVE_SCOPE = ('{Namespace, AsyncNamespace, ClientNamespace, '
                     'AsyncClientNamespace} x every helper found by '
@@ -82,6 +84,11 @@ def params(socketio, nscls_name, helper):
         if p.default is inspect.Parameter.empty:
             req.append(p.name)
         else:
+            opt.append(p.name)
+    # what the underlying method accepts and the helper does not even name
+    for p in list(ts.parameters.values())[1:]:
+        if p.name not in hs.parameters and p.kind in (
+                p.POSITIONAL_OR_KEYWORD, p.KEYWORD_ONLY):
             opt.append(p.name)
     return req, opt
 
@@ -299,6 +306,17 @@ def check_case(case):
                                 '%r' % (nscls_name, helper, helper,
                                         len(calls), calls))
             r = SENT
+        elif nscls_name in ('Namespace', 'AsyncNamespace') and \
+                helper == 'disconnect' and 'ignore_queue' in given and \
+                isinstance(e, TypeError) and (
+                    'ignore_queue' in str(e) or 'positional' in str(e)):
+            det = ('%s.disconnect(%r, %r): %r - Server.disconnect accepts '
+                   'ignore_queue, the helper does not' % (nscls_name, pos,
+                                                          kw, e))
+            if KF_IQ in KNOWN:
+                return {'nscls': nscls_name, 'helper': helper,
+                        'kf:' + KF_IQ: True, 'nontrivial': False}
+            raise Violation(KF_IQ, det)
         else:
             raise Violation('helper-raised', '%s.%s(%r, %r): %r'
                             % (nscls_name, helper, pos, kw, e))
